@@ -1,12 +1,16 @@
 import AsynqModel.Sexp
 import AsynqModel.Lib.Cache
 import AsynqModel.Lib.CacheFam
+import AsynqModel.Lib.CacheKw
 /-! driver glue for mode `cache` (property C13)
 
   (case cache <id> alru <maxsize> <default|const|sumParity|raw> <sig> <sig>..)   one <sig> per function decorated by the
   (case cache <id> perinst <sig> <sig>..)                                         ONE decorator object (function 0, 1, ..)
   (case cache <id> lazy <ttl> <t0>)
-  <sig> = ((args..) (defaults..) (kwonly..) ((name default)..) [<varargs 0|1>])      (varargs: the function has *rest)
+  <sig> = ((args..) (defaults..) (kwonly..) ((name default)..) [<varargs 0|1> [<varkw 0|1>]])
+          (varargs: the function has *rest; varkw: it has **opts - an OPEN signature, model Lib/CacheKw.lean: key `openKey`,
+           reference key / binding `openRefKey` / `openBind`; a value token >= 1000 is the 2-tuple (name, value), and the
+           body reports named values, len(rest), rest, then the **opts items in name order)
   (obs <op> <res> <runs> <extra>)
   <op>  = (call <inst> (args..) ((name value)..) <raises> <dur> <selfref> <fn>) | (drop <inst>) | (dirty <fn>) | (tick <d>)
           (<selfref> = the value the body returns refers to the instance; per-instance cases only, optional, default 0;
@@ -28,13 +32,19 @@ def pairs? : Sexp → Option (List (Nat × Nat))
     | _ => none
   | _ => none
 
-def sig? : Sexp → Option Sig
+/-- a signature and whether it is OPEN (`**opts`) -/
+abbrev DSig := Sig × Bool
+
+def sig? : Sexp → Option DSig
   | .list [a, d, k, kd] => do
-    some { args := (← a.natList?), defaults := (← d.natList?), kwonly := (← k.natList?), kwonlyDefaults := (← pairs? kd),
-           varargs := false }
+    some ({ args := (← a.natList?), defaults := (← d.natList?), kwonly := (← k.natList?), kwonlyDefaults := (← pairs? kd),
+            varargs := false }, false)
   | .list [a, d, k, kd, va] => do
-    some { args := (← a.natList?), defaults := (← d.natList?), kwonly := (← k.natList?), kwonlyDefaults := (← pairs? kd),
-           varargs := (← va.bool?) }
+    some ({ args := (← a.natList?), defaults := (← d.natList?), kwonly := (← k.natList?), kwonlyDefaults := (← pairs? kd),
+            varargs := (← va.bool?) }, false)
+  | .list [a, d, k, kd, va, vk] => do
+    some ({ args := (← a.natList?), defaults := (← d.natList?), kwonly := (← k.natList?), kwonlyDefaults := (← pairs? kd),
+            varargs := (← va.bool?) }, (← vk.bool?))
   | _ => none
 
 def keySpec? : Sexp → Option KeySpec
@@ -104,39 +114,50 @@ def answer (id : Nat) (model impl : List Obs) (spec specm : String) (hyp : Bool)
 
 def unparsable (id : Nat) : String := s!"R {id} CORR=diff SPEC=ok SPECM=ok | unparsable case"
 
-def sigAt (sigs : List Sig) (f : Nat) : Sig := sigs.getD f default
+def sigAt (sigs : List DSig) (f : Nat) : DSig := sigs.getD f default
+
+/-! key as written / reference key / binding / covered calls of one decorated function: the closed-signature model of
+    Lib/Cache.lean, or - for a function with `**opts` under the default key - the open-signature model of Lib/CacheKw.lean -/
+def aMk (ks : KeySpec) (d : DSig) : Call → Option Key := if d.2 && ks == .default then alruOpenKey d.1 else alruKey ks d.1
+def aRk (ks : KeySpec) (d : DSig) : Call → Option Key := if d.2 && ks == .default then alruOpenRefKey d.1 else alruRefKey ks d.1
+def aBd (ks : KeySpec) (d : DSig) : Call → Option (List Nat) := if d.2 && ks == .default then alruOpenBind d.1 else alruBind d.1
+def aOK (d : DSig) (c : Call) : Bool := if d.2 then openCallOK d.1 d.1.args c else alruCallOK d.1 c
+def pMk (d : DSig) : Call → Option Key := if d.2 then perInstOpenKey d.1 else perInstKey d.1
+def pRk (d : DSig) : Call → Option Key := if d.2 then perInstOpenRefKey d.1 else perInstRefKey d.1
+def pBd (d : DSig) : Call → Option (List Nat) := if d.2 then perInstOpenBind d.1 else perInstBind d.1
+def pOK (d : DSig) (c : Call) : Bool := if d.2 then openCallOK d.1 (d.1.args.drop 1) c else perInstCallOK d.1 c
 
 /-- `hyp`: inside the hypotheses of C13_alru_shared_decorator_refines / _keyfn (with one function:
-    C13_alru_refines / C13_alru_refines_keyfn) -/
-def handleAlru (id cap : Nat) (ks : KeySpec) (sigs : List Sig) (lines : List (WOp × Obs)) : String :=
+    C13_alru_refines / C13_alru_refines_keyfn; a function with `**opts`: C13_alru_open_signature_refines) -/
+def handleAlru (id cap : Nat) (ks : KeySpec) (sigs : List DSig) (lines : List (WOp × Obs)) : String :=
   match lines.mapM (fun (l : WOp × Obs) => match l.1 with
       | .call _ c r _ _ f => some ({ fn := f, op := { c := c, raises := r } } : Alru.Fam.Op) | _ => none) with
   | none => unparsable id
   | some ops =>
     let impl := lines.map (·.2)
-    let mk := fun f => alruKey ks (sigAt sigs f)
-    let rk := fun f => alruRefKey ks (sigAt sigs f)
-    let bd := fun f => alruBind (sigAt sigs f)
+    let mk := fun f => aMk ks (sigAt sigs f)
+    let rk := fun f => aRk ks (sigAt sigs f)
+    let bd := fun f => aBd ks (sigAt sigs f)
     let model := Alru.Fam.run mk bd (Alru.Fam.init cap) ops
     let sp := Alru.Fam.specClause rk bd cap ops impl
-    let callsOK := ks != .default || ops.all fun o => alruCallOK (sigAt sigs o.fn) o.op.c
+    let callsOK := ks != .default || ops.all fun o => aOK (sigAt sigs o.fn) o.op.c
     let hyp := decide (1 ≤ cap) && callsOK
     let tag := ""
     answer id model impl (clauseStr sp ++ tag) (clauseStr (Alru.Fam.specClause rk bd cap ops model)) hyp (!callsOK)
 
 /-- `hyp`: inside the hypotheses of C13_per_instance_shared_decorator_refines_partial -/
-def handlePerInst (id : Nat) (sigs : List Sig) (lines : List (WOp × Obs)) : String :=
+def handlePerInst (id : Nat) (sigs : List DSig) (lines : List (WOp × Obs)) : String :=
   match lines.mapM (fun (l : WOp × Obs) => match l.1 with
       | .call i c r _ sr f => some (PerInst.Fam.Op.call f i c r sr) | .drop i => some (.drop i) | _ => none) with
   | none => unparsable id
   | some ops =>
     let impl := lines.map (·.2)
     let nfn := sigs.length
-    let mk := fun f => perInstKey (sigAt sigs f)
-    let rk := fun f => perInstRefKey (sigAt sigs f)
-    let bd := fun f => perInstBind (sigAt sigs f)
+    let mk := fun f => pMk (sigAt sigs f)
+    let rk := fun f => pRk (sigAt sigs f)
+    let bd := fun f => pBd (sigAt sigs f)
     let model := PerInst.Fam.run nfn mk bd PerInst.Fam.init ops
-    let callsOK := ops.all fun op => match op with | .call f _ c _ _ => perInstCallOK (sigAt sigs f) c | .drop _ => true
+    let callsOK := ops.all fun op => match op with | .call f _ c _ _ => pOK (sigAt sigs f) c | .drop _ => true
     let hyp := callsOK && PerInst.Fam.noSelfRef ops
     let sp := PerInst.Fam.specClause nfn rk bd ops impl
     -- the observations are exactly those of the model, which keeps the entries of a dropped instance that a value
